@@ -36,7 +36,9 @@ SPEC = {
 }
 
 CATS = [('Food', 'Grocery'), ('Food', 'Coffee'), ('Bills', 'Rent'), ('Shopping', 'Online'), ('Subscriptions', 'Streaming'), ('Travel', '')]
-TAGS = ['business', 'recurring', 'Large', 'S\u00fc\u00dfes', '\u039b\u039f\u0393\u0391\u03a1\u0399\u0391\u03a3\u039c\u038c\u03a3']
+TAGS = ['business', 'recurring', 'Large', 'S\u00fc\u00dfes', '\u039b\u039f\u0393\u0391\u03a1\u0399\u0391\u03a3\u039c\u038c\u03a3',
+        # ordinary tags that merely CONTAIN a special word: only the exact words income / transfer / investment keep a merchant out of the views
+        'income-tax', 'reinvestment', 'transfer-fee', 'Transferred', 'non-income']
 SPECIAL = ['income', 'transfer', 'investment', 'Income', 'TRANSFER']
 
 
@@ -88,6 +90,16 @@ def gen_txns(rnd):
     rnd.shuffle(rest)
     heads = list(first.values())
     rnd.shuffle(heads)
+    if len(years) > 1 and rnd.random() < .25:
+        # statement order (oldest first) and every merchant still active in the LAST year: the earlier years are seen only in payments that are
+        # not the last one of their merchant
+        out = heads + rest
+        for name in sorted({t['merchant'] for t in out}):
+            mine = [t for t in out if t['merchant'] == name]
+            if not any(t['date'].year == max(years) for t in mine):
+                out.append(dict(mine[0], date=datetime(max(years), rnd.randint(1, 12), rnd.randint(1, 28)), amount=round(rnd.choice([5, 25, 100]), 2)))
+        out.sort(key=lambda t: t['date'])
+        return out
     return heads + rest
 
 
